@@ -715,7 +715,7 @@ func (cch *cache) RefreshContainers(containers []*nri.Container) ([]Container, [
 
 	for _, c := range containers {
 		valid[c.Id] = struct{}{}
-		if _, ok := cch.Containers[c.Id]; !ok {
+		if cached, ok := cch.Containers[c.Id]; !ok {
 			log.Debug("inserting discovered container %s...", c.Id)
 			inserted, err := cch.InsertContainer(c)
 			if err != nil {
@@ -724,6 +724,10 @@ func (cch *cache) RefreshContainers(containers []*nri.Container) ([]Container, [
 			} else {
 				add = append(add, inserted)
 			}
+		} else if cached.GetState() != c.GetState() {
+			log.Debug("updating state of container %s from %v to %v...", c.Id,
+				cached.GetState(), c.GetState())
+			cached.UpdateState(c.GetState())
 		}
 	}
 
